@@ -223,7 +223,7 @@ def run(ck):
     with ck.guard("C02.R5", "effective_energy(v,a)"):
         def ea_(it, s):
             am = it.get_attr(s, "rbm_am", None)
-            return call(it, am, "effective_energy", tens(it, "v", ("B", "nv")), tens(it, "a", ("B", "na"))), role_terms(it, am)
+            return call(it, am, "effective_energy", tens(it, "v", ("B", "nv")), tens(it, "a", ("B", mod_dim(am, "num_aux", "na")))), role_terms(it, am)
 
         paths = _ev(ck, ea_)
         for p in returning(paths, "E(v,a)"):
